@@ -30,9 +30,9 @@ class HFlags(Plugin):
         s.top = eng.top
         ep = eng.top.pnames.get("errp")
         s.errp_root = ep["id"] if ep else None
-        if s.errp_root:
-            return (0, None, (), None)
-        return (0, None, ())          # count (0,1,2), first code (Lin or None), messages [, value stored through errp]
+        s.pinned = set()
+        # (count (0,1,2), first code, messages, value stored through errp, measured lengths {(pointer, length atom)}, inlined frames whose copy provably fits)
+        return (0, None, (), None, frozenset(), frozenset())
 
     def no_inline(s, fn):
         return fn.name in s.noinline or not s.may_report(fn)
@@ -69,22 +69,39 @@ class HFlags(Plugin):
 
     def on_event(s, pl, ev, eng, st):
         if ev[0] == "store" and s.errp_root and ev[1][0] == "p" and ev[1][1] == s.errp_root:
-            return pl[:3] + (eng.as_lin(ev[2]),)
+            return pl[:3] + (eng.as_lin(ev[2]),) + pl[4:]
+        if ev[0] == "enter" and s.assume_quiet and ev[1].name in s.assume_quiet and "PROVE-FIT" in s.assume_quiet[ev[1].name]:
+            # copy(dest, dmax, src): the nested 'not enough space' constraint cannot fire if a measured strlen(src) is known to be < dmax here
+            args = ev[2]
+            env, facts, epoch = st
+            if len(args) >= 3 and args[1][0] == "i":
+                for (pv, la) in pl[4]:
+                    if pv == args[2] and eng.decide(("cmp", "ult", Lin.atom(la), args[1][1]), facts) is True:
+                        site = "%s@%s:%s/" % (ev[1].name, ev[3]["_bb"], ev[3]["_k"])
+                        return pl[:5] + (pl[5] | {ev[4].pre + site},)
+            return pl
         if ev[0] == "handler":
             rest = pl[3:]
-            r = s._handler(pl[:3], ev, eng, st)
+            r = s._handler(pl, ev, eng, st)
             return r if r == "DROP" else r + rest
         return pl
 
-    def _handler(s, pl, ev, eng, st):
+    def _handler(s, pl6, ev, eng, st):
+        pl = pl6[:3]
         if True:
             cnt, code, msgs = pl
             fr = ev[6]
             if s.assume_quiet and fr.depth > 0:
                 f = fr
                 while f is not None and f.depth > 0:
-                    if f.depth == 1 and f.fn.name in s.assume_quiet and any(x in (ev[3] or "") for x in s.assume_quiet[f.fn.name]):
-                        return "DROP"        # this nested constraint cannot fire here (listed assumption, value-level reason)
+                    if f.depth == 1 and f.fn.name in s.assume_quiet:
+                        frags = s.assume_quiet[f.fn.name]
+                        msg_ = ev[3] or ""
+                        if "not enough space" in msg_ and "PROVE-FIT" in frags:
+                            if f.pre in pl6[5]:
+                                return "DROP"    # proven on this path: measured length < dmax
+                        elif any(x in msg_ for x in frags if x != "PROVE-FIT"):
+                            return "DROP"        # this nested constraint cannot fire here (listed assumption, value-level reason)
                     f = f.parent
             if not s.track_msgs:
                 return (min(cnt + 1, 2), ev[2] if cnt == 0 else code, ())
@@ -92,6 +109,10 @@ class HFlags(Plugin):
         return pl
 
     def on_call(s, pl, call, eng, st):
+        if call[0] == "ext" and call[1] in ("strlen", "wcslen") and call[6] and call[3]:
+            s.pinned.add(call[6])
+            lens = frozenset(list(pl[4])[-3:]) | {(call[3][0], call[6])}
+            return [(pl[:4] + (lens,) + pl[5:], [])]
         if call[0] == "lib":
             callee = call[1]
             if callee.name in PRIM_EFFECTS:
@@ -418,3 +439,51 @@ class AFlags(Plugin):
                     pl2 = s.deref(pl2, a, "passed to %s" % callee.name, inst, fr, eng, facts)
             return [(pl2, [])]
         return [(pl, [])]
+
+
+class TFlags(DFlags):
+    """DFlags plus: has the destination budget (the loop counter initialised from dmax) been seen exhausted on this path?"""
+
+    def init(s, eng):
+        base = DFlags.init(s, eng)
+        s.budget_phis = set()
+        fn = eng.top
+        m = fn.pnames.get(s.dmax_name)
+        if m is not None:
+            # integer loop-header phis whose value entering the loop derives from the dmax parameter (possibly through other such phis / a merge with destbos)
+            seeds = {m["id"]}
+            changed = True
+            while changed:
+                changed = False
+                for i in fn.insts():
+                    if i["op"] == "phi" and i["ty"] == "i64" and i["id"] not in seeds:
+                        if any(x["v"].get("k") == "v" and x["v"]["id"] in seeds for x in i["incoming"]):
+                            seeds.add(i["id"]); changed = True
+                    elif i["op"] in ("add", "sub") and i.get("id") not in seeds and i["ops"][0].get("k") == "v" and i["ops"][0]["id"] in seeds and i["ops"][1].get("k") == "c":
+                        seeds.add(i["id"]); changed = True
+            s.budget_phis = {v for v in seeds if v != m["id"]}
+        return base + (False,)
+
+    def on_event(s, pl, ev, eng, st):
+        if ev[0] == "edge" and not pl[-1]:
+            ct, val = ev[1], ev[2]
+            z = DFlags.zero_test(ct, val)
+            if z is None and ct[0] == "cmp" and ct[1] in ("ugt", "ult", "uge", "ule"):
+                # x > 0 false  /  x < 1 true ...
+                d = ct[2] - ct[3]
+                pred = ct[1] if val else {"ugt": "ule", "ule": "ugt", "ult": "uge", "uge": "ult"}[ct[1]]
+                if len(d.t) == 1:
+                    (a, c), = d.t.items()
+                    if (pred == "ule" and c == 1 and d.c == 0) or (pred == "ult" and c == 1 and d.c == -1) or (pred == "uge" and c == -1 and d.c == 0) or (pred == "ugt" and c == -1 and d.c == 1):
+                        z = Lin.atom(a)
+            if z is not None and len(z.t) == 1:
+                a = list(z.t)[0]
+                if a.split("/")[-1] in s.budget_phis and "/" not in a and not pl[3] and pl[0]:
+                    # the budget ran out while the call had written data but no terminator yet (a slack-clearing loop runs with a terminator in place)
+                    r = DFlags.on_event(s, pl[:-1], ev, eng, st)
+                    return r if r == "DROP" else r + (True,)
+        r = DFlags.on_event(s, pl[:-1], ev, eng, st)
+        return r if r == "DROP" else r + (pl[-1],)
+
+    def on_call(s, pl, call, eng, st):
+        return [(p + (pl[-1],), a) for (p, a) in DFlags.on_call(s, pl[:-1], call, eng, st)]
